@@ -117,6 +117,15 @@ func readerLoop(buf, lazy, contReads int) Driver {
 				st |= ws.StateExtended
 			}
 			rd := &wsutil.Reader{Source: src, State: st, MaxFrameSize: cfg.MaxFrameSize, CheckUTF8: cfg.CheckUTF8, Extensions: cfg.Extensions}
+			if buf == 512 && !cfg.Extended && cfg.MaxFrameSize == 0 && len(cfg.Extensions) == 0 {
+				// this variant goes through the constructors
+				if side == streams.Server {
+					rd = wsutil.NewServerSideReader(src)
+				} else {
+					rd = wsutil.NewClientSideReader(src)
+				}
+				rd.CheckUTF8 = cfg.CheckUTF8
+			}
 			res.Reader = rd
 			rd.OnIntermediate = func(h ws.Header, r io.Reader) error {
 				if lazy >= 0 {
@@ -334,14 +343,42 @@ func NextReaderLoop() Driver {
 }
 
 // ReadMessageLoop: wsutil.ReadMessage until error.
-func ReadMessageLoop() Driver {
+func ReadMessageLoop() Driver { return readMessageLoop(false) }
+
+// ReadSideMessageLoop uses the side-specific shortcuts ReadClientMessage / ReadServerMessage
+// and hands the message slice back as m[:0] from call to call.
+func ReadSideMessageLoop() Driver { return readMessageLoop(true) }
+
+func readMessageLoop(shortcut bool) Driver {
+	name := "ReadMessage"
+	if shortcut {
+		name = "ReadClient/ServerMessage"
+	}
 	return Driver{
-		Name:   "ReadMessage",
+		Name:   name,
 		Hidden: true,
 		Expect: identity,
 		Run: func(src io.Reader, side streams.Side, cfg Cfg, res *Result) {
+			var recycled []wsutil.Message
 			for it := 0; it < maxIter; it++ {
-				ms, err := wsutil.ReadMessage(src, State(side), nil)
+				var ms []wsutil.Message
+				var err error
+				switch {
+				case !shortcut:
+					ms, err = wsutil.ReadMessage(src, State(side), nil)
+				case side == streams.Server:
+					ms, err = wsutil.ReadClientMessage(src, recycled[:0])
+				default:
+					ms, err = wsutil.ReadServerMessage(src, recycled[:0])
+				}
+				if shortcut {
+					// keep own copies: the slice (not the payloads) is reused by the next call
+					cp := make([]wsutil.Message, len(ms))
+					for i, m := range ms {
+						cp[i] = wsutil.Message{OpCode: m.OpCode, Payload: append([]byte{}, m.Payload...)}
+					}
+					recycled, ms = ms, cp
+				}
 				if err != nil {
 					// messages collected before the error are intermediate control frames
 					// of a message that was never completed: record them separately.
@@ -531,7 +568,7 @@ func All() []Driver {
 		ReaderLoop(1), ReaderLoop(2), ReaderLoop(7), ReaderLoop(512),
 		ReaderAlternatingBuffers(), ReaderLazyHandler(0), ReaderLazyHandler(1), ReaderContinuationHandler(1), ReaderContinuationHandler(64),
 		ReaderDiscard(0), ReaderDiscard(1), ReaderDiscardUTF8(1), ReaderDiscardUTF8(2),
-		NextReaderLoop(), ReadMessageLoop(),
+		NextReaderLoop(), ReadMessageLoop(), ReadSideMessageLoop(),
 		ReadDataLoop("Generic"), ReadDataLoop("Data"), ReadDataLoop("Text"), ReadDataLoop("Binary"),
 	}
 }
